@@ -42,6 +42,7 @@ PRIORITY = [
     "name-in-use-clash",
     "dry-run-registry-names-not-in-dataset",
     "supported-request-failed",
+    "external-variable-not-declared",
     "formula-terms-dropped",
     "formula-terms-on-shared-coordinate",
     "description-property-dropped",
@@ -116,6 +117,42 @@ def _only_datum_differs(f, g):
         return False
 
 
+REFS = ("coordinates", "bounds", "climatology", "grid_mapping", "cell_measures", "formula_terms", "ancillary_variables",
+        "geometry", "node_coordinates", "node_count", "part_node_count", "interior_ring")
+
+
+def domain_byproducts(view):
+    """Variables reachable from a domain variable (one with a `dimensions` attribute).  A read in field mode
+    does not see domain variables, so it returns their coordinate, bounds, grid-mapping … variables as
+    'fields' as long as no data variable refers to them; these by-products are not fields of the dataset
+    (they come and go as data variables start sharing them) and are left out of the before/after comparison."""
+    if view is None:
+        return set()
+    vs = view["v"]
+    seen, todo = set(), [k for k, v in vs.items() if "dimensions" in v["attrs"]]
+    roots = set(todo)
+    while todo:
+        k = todo.pop()
+        v = vs.get(k)
+        if v is None:
+            continue
+        names = []
+        for a in REFS + ("dimensions",):
+            x = v["attrs"].get(a)
+            if isinstance(x, str):
+                names += [t.rstrip(":") for t in x.split()]
+        names += list(v["dims"])
+        for n in names:
+            if n in vs and n not in seen and n not in roots:
+                seen.add(n)
+                todo.append(n)
+    return seen
+
+
+def _visible(fields, skip):
+    return [f for f in fields if not (f["kind"] == "Field" and f["ncvar"] in skip)]
+
+
 def check_preserved(step):
     if step.get("view1") is None or step.get("after") is None:
         why = str(step.get("unreadable"))
@@ -124,7 +161,8 @@ def check_preserved(step):
             code = "shared-scalar-string-coordinate-unreadable"
         return [(code, "dataset unreadable after the call: " + why)]
     out = _file_changes(step)
-    b, a = _ms(step["before"]), _ms(step["after"])
+    skip = domain_byproducts(step["view1"])
+    b, a = _ms(_visible(step["before"], skip)), _ms(_visible(step["after"], skip))
     lost = b - a
     if lost:
         n = sum(lost.values())
@@ -148,9 +186,10 @@ def check_preserved(step):
 
 
 def _new_fields(step):
-    left = collections.Counter(_ms(step["before"]))
+    skip = domain_byproducts(step.get("view1"))
+    left = collections.Counter(_ms(_visible(step["before"], skip)))
     newf = []
-    for f in step["after"]:
+    for f in _visible(step["after"], skip):
         k = _k(f)
         if left[k] > 0:
             left[k] -= 1
@@ -163,6 +202,11 @@ def _new_mechanism(step, default):
     """Why the appended constructs did not come back: decided on the new variables of the file."""
     v0, v1 = step["view0"], step["view1"]
     newv = {k: v for k, v in v1["v"].items() if k not in v0["v"]}
+    listed = str(v0["g"].get("external_variables", "")).split()
+    if any(n not in listed for f in step["feats"] for n in f.get("ext", ())):
+        # an external cell measure whose name the dataset's external_variables attribute does not list:
+        # global attributes are not rewritten, so the new variable's cell_measures entry dangles
+        return "external-variable-not-declared"
     if any(f["formula_terms"] for f in step["feats"]):
         new_owner = any("computed_standard_name" in v["attrs"] and "formula_terms" not in v["attrs"] for v in newv.values())
         if new_owner and not any("formula_terms" in v["attrs"] for v in newv.values()):
@@ -186,7 +230,8 @@ def check_new(step):
     out = []
     if step.get("after") is None:
         return out
-    b, a = _ms(step["before"]), _ms(step["after"])
+    skip = domain_byproducts(step["view1"])
+    b, a = _ms(_visible(step["before"], skip)), _ms(_visible(step["after"], skip))
     new = a - b
     lost = sum((b - a).values())
     n_new = sum(new.values()) - lost  # a changed old field is charged to `old`, not counted as new
@@ -221,25 +266,28 @@ def check_new(step):
         miss = 0
         for i, k in enumerate(kinds):
             sk = want_s[i] if i < len(want_s) else None
+            cleared = any(f.get("eq") and f["kind"] == k for f in _new_fields(step))
             if k == "Domain":
-                if not (got[sk] > 0 or any(got[t] > 0 for t in want_t)):
+                if not (got[sk] > 0 or any(got[t] > 0 for t in want_t) or cleared):
                     miss += 1
             else:
-                if not (got[sk] > 0 or any(got[_modulo(t, gnames)] > 0 for t, kk in zip(step["twins"], tk) if kk != "Domain")):
+                if not (got[sk] > 0 or any(got[_modulo(t, gnames)] > 0 for t, kk in zip(step["twins"], tk) if kk != "Domain") or cleared):
                     miss += 1
         if miss:
             out.append((_new_mechanism(step, "new-field-not-equal"),
                         f"{miss} appended construct(s) have no equal new field (modulo the dataset's global attributes)"))
         return out
     unmatched = 0
-    for k, n in got.items():
-        for _ in range(n):
-            if twins[k] > 0:
-                twins[k] -= 1
-            elif selfs[k] > 0:
-                selfs[k] -= 1
-            else:
-                unmatched += 1
+    for f in _new_fields(step):
+        k = _modulo(f["nn"], gnames)
+        if twins[k] > 0:
+            twins[k] -= 1
+        elif selfs[k] > 0:
+            selfs[k] -= 1
+        elif f.get("eq"):
+            pass  # cfdm's own equality says it is one of the appended constructs: a fingerprint nicety, not a loss
+        else:
+            unmatched += 1
     if unmatched:
         out.append((_new_mechanism(step, "new-field-not-equal"),
                     f"{unmatched} new field(s) equal no appended construct (modulo the dataset's global attributes)"))
